@@ -33,7 +33,10 @@ RULE = ("one session per unordered pair of the 33-geometry lattice catalogue (al
         "millisecond events 2^18..2^27 s along the time axis; non-trivial = the pair has a positive affinity")
 TRUSTED_BASE = ["checks/c06.py + vt/geom.py (build geometries, call compute_affinity / buffer_geometry / compute_bounds, "
                 "encode doubles as limbs and hex; division of observed bounds by the power-of-two time unit)"]
-ASSUMPTIONS = ["bent / oblique lines against time-only geometries: the buffered time extent is bracketed between tmin - b .. tmax + b and the "
+ASSUMPTIONS = ["'iso' sessions use one numeric unit on both axes (1 tick = u s = u Hz, u = 0.5, 2, 0.125) with time_buffer = freq_buffer, so that "
+               "equal buffers and literally equal coordinate lists of different kinds (TimeInterval [1,2] / Point [1,2]) occur; "
+               "the closed forms apply unchanged",
+               "bent / oblique lines against time-only geometries: the buffered time extent is bracketed between tmin - b .. tmax + b and the "
                "same shortened by b/128 at either end (inscribed round caps, shortfall <= 0.48 %), for lines whose bends are at most 90 "
                "degrees in buffer units and lie at least tb inside the extent; decided at 1 ms ticks (kind far, origin 0) and on the "
                "coarse lattice",
@@ -140,6 +143,19 @@ def provenance(make, rec, prov, far=7):
         return other.model_copy(update={"coordinates": coords})
     other.coordinates = coords
     return other
+
+
+ISO_UNITS = [0.5, 2.0, 0.125]    # one numeric unit on both axes: 1 tick = u seconds = u hertz; buffers tb = fb = ticks * u
+
+
+def _iso(case):
+    runs = []
+    for u in ISO_UNITS:
+        make = lambda r, u=u: build(r, u, u)
+        mk = lambda d, make=make: (provenance(make, _shift_lat(case["g1"], d), case["prov"][0], 7),
+                                   provenance(make, _shift_lat(case["g2"], d), case["prov"][1], 11))
+        runs.append(_session(mk, case["ds"], case["tb"] * u, case["fb"] * u, u))
+    return {"runs": runs}
 
 
 def _lattice(case):
@@ -309,6 +325,8 @@ def execute(case):
         return _lattice(case)
     if case["kind"] == "far":
         return _far(case)
+    if case["kind"] == "iso":
+        return _iso(case)
     return _random(case)
 
 
